@@ -4,8 +4,8 @@ Jobs (one shared run for the six properties):
  (1) TLC checks the lattice laws ON THE MODEL (spec/Lattice/LatticeMC): every descriptor of the
      catalogue x every value: ACI, Leq <=> Join, partial order, lub, bottom/top, atoms, Changed;
      bimorphism distributivity; the documented non-lattice (DomPair over a non-total key).
- (2) TLC (LatticeGen) writes vectors: all values, all pairs, a spread sample of triples, all
-     bimorphism argument triples, with the model's expected outputs.
+ (2) the same TLC run writes vectors (definitions in LatticeGen): all values, all pairs, a spread
+     sample of triples, all bimorphism argument triples, with the model's expected scalar outputs.
  (3) harness bin `lattice replay` rebuilds every vector in every backing representation the crate
      ships (receiver x argument representation), runs the real merge / merge_owned / partial_cmp /
      == / < <= > >= != / is_bot / is_top / Default / atomize / lattice_from / bimorphism call and
@@ -231,7 +231,7 @@ def _job_mc_gen(d, wide, thorough):
     os.makedirs(out, exist_ok=True)
     cfg = _cfg("lat_mc.cfg", "SPECIFICATION Spec\nCONSTANTS\n  WIDE = %s\n  EMIT = TRUE\n  TRIPLECAP = %d\n  PAIRCAP = %d\n"
                "INVARIANTS TypeLaws ValueLawsHold NonLatticeDocumented BimoLawsHold\nCHECK_DEADLOCK FALSE\n"
-               % (_tf(wide), 8 if thorough else 5, 36 if thorough else 20))
+               % (_tf(wide), 10 if thorough else 5, 60 if thorough else 20))
     r = vlib.tlc(SDL, "LatticeMC", cfg=cfg, workers=6, timeout=3000, env={"OUT": out})
     if not r.ok:
         raise vlib.ToolError("LatticeMC: a lattice law fails ON THE MODEL (spec error):\n" + r.error_trace[-3000:])
@@ -296,7 +296,7 @@ def _job_uf(exe, d, thorough):
         raise vlib.ToolError("unionfind replay failed: " + p.stderr[-2000:])
     summ = json.loads(p.stdout.strip().splitlines()[-1])
     rtrace = os.path.join(d, "uf_random_trace.ndjson")
-    p = vlib.run_bin(exe, ["random", 6000 if thorough else 600, 8, 12, rtrace], timeout=1500)
+    p = vlib.run_bin(exe, ["random", 20000 if thorough else 600, 8, 12, rtrace], timeout=1500)
     if p.returncode != 0:
         raise vlib.ToolError("unionfind random failed: " + p.stderr[-2000:])
     rsumm = json.loads(p.stdout.strip().splitlines()[-1])
@@ -363,7 +363,7 @@ def run(tier):
     with concurrent.futures.ThreadPoolExecutor(max_workers=3) as ex:
         f_uf = ex.submit(_job_uf, ufexe, d, thorough)
         rtrace = os.path.join(d, "random_trace.ndjson")
-        f_rnd = ex.submit(_run_lattice_bin, exe, ["random", 40 if thorough else 4, rtrace])
+        f_rnd = ex.submit(_run_lattice_bin, exe, ["random", 120 if thorough else 4, rtrace])
         r_mc, vecdir = _job_mc_gen(d, wide, thorough)
         trace = os.path.join(d, "replay_trace.ndjson")
         summ = _run_lattice_bin(exe, ["replay", vecdir, trace])
@@ -376,7 +376,7 @@ def run(tier):
         with open(allt, "w") as f:
             f.writelines(events + revents + cevents)
             f.write('{"op":"eof"}\n')
-        allviol, rs_tv, allev = _validate_lattice(allt, wide, "lat_tv", chunks=8 if thorough else 3)
+        allviol, rs_tv, allev = _validate_lattice(allt, wide, "lat_tv", chunks=10 if thorough else 3)
         uf_jobs, uf_cases, uf_summ, uf_viol, uf_trace, uf_rsumm, uf_rviol, uf_rtrace = f_uf.result()
     n1, n2 = len(events), len(events) + len(revents)
     viol = [v for v in allviol if v[0] <= n1]
